@@ -1906,3 +1906,12 @@ MA('C14', 'a single node after a longer axis inherits its half cell',
    'if bdry_l or len(coords) == 1:...',
    'if bdry_l:\n    min_pt[i] = coords[0]\nelse:\n    min_pt[i] = coords[0] - (coords[min(1, len(coords) - 1)] - coords[0]) / 2.0 - (0 if len(coords) > 1 or i == 0 else 1)',
    'nonuniform_partition')
+MA('C02', 'cell sides of tiny cells replaced by the extent',
+   'odl/discr/partition.py', 'RectPartition.cell_sides',
+   'sides[sides == 0] = self.extent[sides == 0]',
+   'sides[np.isclose(sides, 0)] = self.extent[np.isclose(sides, 0)]', 'R4c')
+MA('C02', 'complex inner product of large arrays through BLAS dotc with the arguments in the documented order',
+   'odl/space/npy_tensors.py', '_inner_default',
+   'return np.vdot(x2.data.ravel(order), x1.data.ravel(order))',
+   "if x1.size > THRESHOLD_MEDIUM and _blas_is_applicable(x1.data, x2.data):\n    import scipy.linalg\n    return scipy.linalg.blas.get_blas_funcs('dotc', dtype=x1.dtype)(x1.data.ravel(order), x2.data.ravel(order))\nreturn np.vdot(x2.data.ravel(order), x1.data.ravel(order))",
+   'blas,big')
